@@ -39,7 +39,7 @@ PROBES = ["split_remainder_nonzero", "insufficient_funds_refused", "less_than_on
           "cache_roundtrip_bytes", "torn_cache_file_read", "provider_lookup_cached", "observed_stuck_after_heal",
           "observed_txdb_returned_unrequested_tx", "spendable_form_text", "spendable_form_dict", "display_roundtrip",
           "attach_unspents", "fee_after_in_place_edit", "validate_against_unfiltered_source", "validate_against_plain_dict",
-          "validate_refused_colluding_source", "attach_left_unknown", "build_by_hand_distribute_from_split_pool", "build_create_signed_tx", "build_args_are_generators"]
+          "validate_refused_colluding_source", "attach_left_unknown", "build_by_hand_distribute_from_split_pool", "build_create_signed_tx", "build_args_are_generators", "fee_with_unpaired_unspents_refused"]
 
 CACHE = "/wallet/cache"
 
@@ -153,7 +153,7 @@ def gen_plan(rng, tier, index, config=None):
             steps.append({"op": "validate", "tx": "x%d" % r.below(nbuilt), "db": r.weighted([("txdb", 5), ("raw", 3 if faulty else 1), ("dict", 1)])})
         elif op == "edit":
             steps.append({"op": "edit", "tx": "x%d" % r.below(nbuilt), "how": r.pick(["unspent_value_inplace", "unspent_replace", "out_value",
-                                                                                     "set_unspents_same_list"]),
+                                                                                     "set_unspents_same_list", "input_removed"]),
                           "i": r.bits(8), "delta": r.pick([1, -1, 7, 1000, -1000, 30000])})
         elif op == "attach":
             steps.append({"op": "attach", "tx": "x%d" % r.below(nbuilt), "ignore_missing": r.chance(0.4),
@@ -731,6 +731,38 @@ def _op_edit(ctx, W, st):
     if ent is None:
         return
     tx, rec, outs = ent
+    if st["how"] == "input_removed":
+        # the wallet drops an input from the list but forgets the spent output recorded for it: until that is put right
+        # no fee may be reported (it "always equals inputs minus outputs", and the two lists no longer pair up)
+        if len(tx.txs_in) < 2 or len(tx.unspents) != len(tx.txs_in):
+            return
+        k = st["i"] % len(tx.txs_in)
+        try:
+            tx.fee()
+            del tx.txs_in[k]
+        except Exception as e:
+            ctx.violate("C13", "fee-raised", {"exc": type(e).__name__, "msg": str(e)[:200], "after": "edit input_removed (before)"})
+            return
+        ctx.probe("fee_with_unpaired_unspents_refused")
+        for name, f in (("fee", tx.fee), ("total_in", tx.total_in)):
+            try:
+                v = f()
+            except Exception:
+                continue
+            ctx.violate("C13", "fee-reported-with-unpaired-unspents", {"what": name, "value": v, "inputs": len(tx.txs_in), "unspents": len(tx.unspents)})
+        # put right: the recorded output of the removed input goes too
+        del tx.unspents[k]
+        rec = [x for i_, x in enumerate(rec) if i_ != k]
+        W.built[st["tx"]] = (tx, rec, outs)
+        try:
+            f_, ti_, to_ = tx.fee(), tx.total_in(), tx.total_out()
+        except Exception as e:
+            ctx.violate("C13", "fee-raised", {"exc": type(e).__name__, "msg": str(e)[:200], "after": "edit input_removed (repaired)"})
+            return
+        total_in = sum(v for v, _, _, _ in rec)
+        if (f_, ti_, to_) != (total_in - sum(outs), total_in, sum(outs)):
+            ctx.violate("C13", "fee-identity", {"after": "edit input_removed", "fee": f_, "total_in": ti_, "total_out": to_})
+        return
     try:
         tx.fee()   # the fee has been looked at before the edit
         how = st["how"]
